@@ -281,8 +281,12 @@ fn tune_allocator() {
         fn mallopt(param: i32, value: i32) -> i32;
     }
     const M_TRIM_THRESHOLD: i32 = -1;
+    const M_MMAP_THRESHOLD: i32 = -3;
     unsafe {
         mallopt(M_TRIM_THRESHOLD, 1 << 30);
+        // setting one threshold switches glibc's dynamic adjustment off, which would leave
+        // every buffer above 128 KiB to a fresh mmap/munmap pair; 32 MiB is the maximum
+        mallopt(M_MMAP_THRESHOLD, 32 << 20);
     }
 }
 #[cfg(not(all(target_os = "linux", target_env = "gnu")))]
